@@ -57,7 +57,7 @@ def generate(rng, run, tier):
                 "integration": integration}
     plan["kind"] = kind
     plan["consumer"] = rng.choice(["flat", "flat", "grouped"])
-    plan["frontend"] = rng.choice(["raw", "raw", "buffered"])
+    plan["frontend"] = rng.choice(["raw", "raw", "buffered", "duck", "rwpair"])
     return plan
 
 
